@@ -1469,7 +1469,7 @@ fn field_class(f: &str) -> String {
 pub fn options_for(profile: &str) -> Options {
     let mut o = Options::default();
     match profile {
-        "aux" => o.transparency = true,
+        "aux" | "tall" => o.transparency = true,
         "purity" => o.model_oracles = false,
         _ => {}
     }
